@@ -119,8 +119,27 @@ def rule_b(prog, rep):
             res.append('the batch continues past a non-batchable action (reordering)')
     if not inloop or not src_ok:
         res.append('actions are not taken from rx.try_recv() in a loop')
+    # every action taken off the channel is consumed: applied to the table or kept in next_action
+    def clb(nd, anc):
+        k = nd.get('k')
+        if k == 'call':
+            c = callee(nd)
+            if short(c) == 'try_recv':
+                return 'take'
+            if short(c) in ('insert', 'remove') and 'Table' in c:
+                return 'apply'
+        if k == 'assign' and 'next_action' in str(nd['l'])[:300]:
+            return 'keep'
+        return None
+    if inloop:
+        trb = Tracer(crate, clb)
+        trb.env = {}
+        for (ex, t, v) in trb.expr(inloop[0]['body']):
+            tb = [base(x) for x in t]
+            if 'take@Ok' in tb and 'apply' not in tb and 'keep' not in tb:
+                res.append('an action is taken from the channel and then dropped (neither applied nor kept in next_action): ' + str(tb))
     if res:
-        rep.violation('C18.b', 'batch_process', f.loc, '; '.join(res), key='C18.b/batch_process/' + '|'.join(res))
+        rep.violation('C18.b', 'batch_process', f.loc, '; '.join(res), key='C18.b/batch_process/' + '|'.join(r.split(':')[0] for r in res))
     else:
         rep.ok('C18.b', 'batch_process', f.loc, 'Update/Delete applied in arrival order; anything else -> next_action + break')
     # run: next_action first
